@@ -12,7 +12,7 @@ CFG = {
         "Leptos.Store.C16_keys_stable_partial",
         "Leptos.Store.C16_keys_boundary",
         "Leptos.Store.C16_wake_order_partial",
-        "Leptos.Store.C16_wake_order_full_false",
+        "Leptos.Store.C16_wake_order_all_pairs_false",
         "Leptos.Store.C16_write_wakes_iff_related",
         "Leptos.Store.C16_run_subscribes",
         "Leptos.Store.C16_sees_written_value",
@@ -23,8 +23,8 @@ CFG = {
         "Leptos.Store.C16_at_index_misses_parent_witness",
         "Leptos.Store.C16_patch_keyed_by_index_witness",
         "Leptos.Store.C16_stale_keys_panic_witness",
-        "Leptos.Store.C16_absent_key_path_collapse_witness",
-        "Leptos.Store.C16_descendant_wake_order_witness",
+        "Leptos.Store.C16_removed_key_reader_not_dropped_witness",
+        "Leptos.Store.C16_subscription_order_below_written_field",
         "Leptos.Store.mem_notifySet",
         "Leptos.Store.mem_trackSet",
         "Leptos.Store.updateEntries_wf",
@@ -69,7 +69,7 @@ CFG = {
         "text": "Lean 4 theorems over all paths of unbounded depth: a write through a plain field path notifies a reader iff the two "
                 "paths are prefix-related, the notification list is ordered root first, a notified reader reads the written value; "
                 "FieldKeys segments stay stable and distinct for every history and every hash order iff the table starts from <= 1 key "
-                "(full statement refuted by a kernel-checked witness = F-C16-1); kernel-checked witnesses for six further defects of "
+                "(full statement refuted by a kernel-checked witness = F-C16-1); kernel-checked witnesses for five further defects of "
                 "AtIndex / AtKeyed / KeyedSubfield / Patch; tied to the code by a differential run of the real reactive_stores against the compiled model",
         "design_ref": "DESIGN.md §7 C16",
         "note": "model hand-written, faithfulness checked by correspondence on generated histories; reactive_graph effects and the executor trusted as modelled",
